@@ -51,11 +51,27 @@ def _call(args):
         signal.alarm(0)
 
 
+def _auto_nproc(nproc):
+    """fewer workers when the machine is already saturated (several checks / builders at once): avoids spurious per-case timeouts"""
+    cap = int(os.environ.get('VERIF_NPROC', '0') or 0)
+    if cap:
+        return max(1, min(nproc, cap))
+    try:
+        load = os.getloadavg()[0]
+    except OSError:
+        load = 0.0
+    if load > 32:
+        return min(nproc, 5)
+    if load > 16:
+        return min(nproc, 8)
+    return nproc
+
+
 def run_impl(fn, cases, nproc=16, limit=120):
     """fn: module-level function case -> result (picklable). Returns list of (status, value)."""
     if not cases:
         return []
-    nproc = max(1, min(nproc, len(cases)))
+    nproc = max(1, min(_auto_nproc(nproc), len(cases)))
     ctx = mp.get_context('fork')
     with ctx.Pool(nproc, initializer=_init_worker, maxtasksperchild=200) as pool:
         return pool.map(_call, [(fn, c, limit) for c in cases], chunksize=1)
